@@ -718,7 +718,8 @@ def runNumeric (lines : List String) : IO Unit := do
         let any := (List.range (s.blocks[b]!).size).any fun i => s.wImpl[kIndex s b i]! > s.truncEps
         if (flags.getD b "1" == "1") != any then
           a ← fail a "C19" s!"block {b}: retained = {flags.getD b "?"} although max weight {(List.range (s.blocks[b]!).size).foldl (fun m i => max m s.wImpl[kIndex s b i]!) 0.0} vs eps {s.truncEps}"
-      if s.truncEps == 0.0 && flags.any (· != "1") then a ← fail a "C19" "eps = 0 discarded a block"
+      -- (at eps = 0 a block all of whose weights underflowed to exactly 0 may be discarded: it contributes nothing; the
+      --  general rule above already demands that a discarded block has no weight above eps)
     | _ => pure ()
   let notes := a.counts.map fun (k, n) => s!"{k}={n}"
   IO.println s!"NUMSUMMARY propfails={a.fails} ambiguous={a.ambiguous} {" ".intercalate notes}"
